@@ -193,6 +193,7 @@ package entities
 //@   ensures  ip:   err == nil && !isnil(value) && (element.DataType == Ipv4Address || element.DataType == Ipv6Address) ==> sameElems(ipval(r), value) && fresh(ipval(r))
 //@   ensures  oa:   err == nil && !isnil(value) && element.DataType == OctetArray ==> sameElems(oaval(r), value) && (len(value) > 0 ==> fresh(oaval(r)))
 //@   ensures  str:  err == nil && !isnil(value) && element.DataType == String ==> len(strval(r)) == len(value) && forall k in [0, len(value)): sat(strval(r), k) == value[k]
+//@   ensures  dec:  err == nil && !isnil(value) && wfElem(r) ==> decodedFrom(r, value)
 //@   ensures  zempty: err == nil && isnil(value) && wfElem(r) ==> elemEmpty(r)
 //@   ensures  znum: err == nil && isnil(value) ==>
 //@              (element.DataType == Unsigned8 ==> r.(*Unsigned8InfoElement).value == 0) && (element.DataType == Unsigned16 ==> r.(*Unsigned16InfoElement).value == 0)
@@ -512,3 +513,89 @@ package entities
 //@ func (b *baseRecord) GetElementMap() (r)
 //@   noeffect
 //@   trusted
+
+// ---------------------------------------------------------------------------
+// End-to-end fidelity (C01): the decoder's postconditions applied to the bytes the encoder's
+// postcondition prescribes give back the same value (per data type), the same length prefix,
+// the same template field specifier and the same message header fields.
+// ---------------------------------------------------------------------------
+
+//@ // decodedFrom(r, v): what DecodeAndCreateInfoElementWithValue ensures about r for a non-nil value slice v (its clauses u8 ... str)
+//@ pure decodedFrom(r InfoElementWithValue, v []byte) bool =
+//@       (dt(r) == Unsigned8 ==> r.(*Unsigned8InfoElement).value == v[0])
+//@    && (dt(r) == Unsigned16 ==> r.(*Unsigned16InfoElement).value == be16(v, 0))
+//@    && (dt(r) == Unsigned32 ==> r.(*Unsigned32InfoElement).value == be32(v, 0))
+//@    && (dt(r) == Unsigned64 ==> r.(*Unsigned64InfoElement).value == be64(v, 0))
+//@    && (dt(r) == Signed8 ==> tou(r.(*Signed8InfoElement).value, 256) == v[0])
+//@    && (dt(r) == Signed16 ==> tou(r.(*Signed16InfoElement).value, 65536) == be16(v, 0))
+//@    && (dt(r) == Signed32 ==> tou(r.(*Signed32InfoElement).value, 4294967296) == be32(v, 0))
+//@    && (dt(r) == Signed64 ==> tou(r.(*Signed64InfoElement).value, 18446744073709551616) == be64(v, 0))
+//@    && (dt(r) == Float32 ==> r.(*Float32InfoElement).value == be32(v, 0))
+//@    && (dt(r) == Float64 ==> r.(*Float64InfoElement).value == be64(v, 0))
+//@    && (dt(r) == Boolean ==> (r.(*BooleanInfoElement).value <==> v[0] == 1))
+//@    && (dt(r) == DateTimeSeconds ==> r.(*DateTimeSecondsInfoElement).value == be32(v, 0))
+//@    && (dt(r) == DateTimeMilliseconds ==> r.(*DateTimeMillisecondsInfoElement).value == be64(v, 0))
+//@    && (dt(r) == MacAddress ==> sameElems(macval(r), v))
+//@    && ((dt(r) == Ipv4Address || dt(r) == Ipv6Address) ==> sameElems(ipval(r), v))
+//@    && (dt(r) == OctetArray ==> sameElems(oaval(r), v))
+//@    && (dt(r) == String ==> len(strval(r)) == len(v) && (forall k in [0, len(v)): sat(strval(r), k) == v[k]))
+
+//@ // sameValue(e, r): bit-identical values of the same data type (floats by their IEEE bit patterns; an IPv4 address
+//@ // held in 16-byte form compares by its last four bytes, which is what travels on the wire)
+//@ pure sameValue(e InfoElementWithValue, r InfoElementWithValue) bool = dt(e) == dt(r)
+//@    && (dt(e) == Unsigned8 ==> r.(*Unsigned8InfoElement).value == e.(*Unsigned8InfoElement).value)
+//@    && (dt(e) == Unsigned16 ==> r.(*Unsigned16InfoElement).value == e.(*Unsigned16InfoElement).value)
+//@    && (dt(e) == Unsigned32 ==> r.(*Unsigned32InfoElement).value == e.(*Unsigned32InfoElement).value)
+//@    && (dt(e) == Unsigned64 ==> r.(*Unsigned64InfoElement).value == e.(*Unsigned64InfoElement).value)
+//@    && (dt(e) == Signed8 ==> r.(*Signed8InfoElement).value == e.(*Signed8InfoElement).value)
+//@    && (dt(e) == Signed16 ==> r.(*Signed16InfoElement).value == e.(*Signed16InfoElement).value)
+//@    && (dt(e) == Signed32 ==> r.(*Signed32InfoElement).value == e.(*Signed32InfoElement).value)
+//@    && (dt(e) == Signed64 ==> r.(*Signed64InfoElement).value == e.(*Signed64InfoElement).value)
+//@    && (dt(e) == Float32 ==> r.(*Float32InfoElement).value == e.(*Float32InfoElement).value)
+//@    && (dt(e) == Float64 ==> r.(*Float64InfoElement).value == e.(*Float64InfoElement).value)
+//@    && (dt(e) == Boolean ==> (r.(*BooleanInfoElement).value <==> e.(*BooleanInfoElement).value))
+//@    && (dt(e) == DateTimeSeconds ==> r.(*DateTimeSecondsInfoElement).value == e.(*DateTimeSecondsInfoElement).value)
+//@    && (dt(e) == DateTimeMilliseconds ==> r.(*DateTimeMillisecondsInfoElement).value == e.(*DateTimeMillisecondsInfoElement).value)
+//@    && (dt(e) == MacAddress ==> len(macval(r)) == 6 && (forall k in [0, 6): macval(r)[k] == macval(e)[k]))
+//@    && (dt(e) == Ipv4Address ==> len(ipval(r)) == 4 && (forall k in [0, 4): ipval(r)[k] == (len(ipval(e)) == 4 ? ipval(e)[k] : ipval(e)[12 + k])))
+//@    && (dt(e) == Ipv6Address && len(ipval(e)) == 16 ==> len(ipval(r)) == 16 && (forall k in [0, 16): ipval(r)[k] == ipval(e)[k]))
+//@    && (dt(e) == OctetArray ==> len(oaval(r)) == len(oaval(e)) && (forall k in [0, len(oaval(e))): oaval(r)[k] == oaval(e)[k]))
+//@    && (dt(e) == String ==> len(strval(r)) == len(strval(e)) && (forall k in [0, len(strval(e))): sat(strval(r), k) == sat(strval(e), k)))
+
+//@ // value ranges of the Go types behind the elements (part of the type invariant of a well-typed element)
+//@ pure valRange(e InfoElementWithValue) bool =
+//@       (dt(e) == Unsigned8 ==> 0 <= e.(*Unsigned8InfoElement).value && e.(*Unsigned8InfoElement).value < 256)
+//@    && (dt(e) == Unsigned16 ==> 0 <= e.(*Unsigned16InfoElement).value && e.(*Unsigned16InfoElement).value < 65536)
+//@    && (dt(e) == Unsigned32 ==> 0 <= e.(*Unsigned32InfoElement).value && e.(*Unsigned32InfoElement).value < 4294967296)
+//@    && (dt(e) == Unsigned64 ==> 0 <= e.(*Unsigned64InfoElement).value && e.(*Unsigned64InfoElement).value < 18446744073709551616)
+//@    && (dt(e) == Signed8 ==> 0 - 128 <= e.(*Signed8InfoElement).value && e.(*Signed8InfoElement).value < 128)
+//@    && (dt(e) == Signed16 ==> 0 - 32768 <= e.(*Signed16InfoElement).value && e.(*Signed16InfoElement).value < 32768)
+//@    && (dt(e) == Signed32 ==> 0 - 2147483648 <= e.(*Signed32InfoElement).value && e.(*Signed32InfoElement).value < 2147483648)
+//@    && (dt(e) == Signed64 ==> 0 - 9223372036854775808 <= e.(*Signed64InfoElement).value && e.(*Signed64InfoElement).value < 9223372036854775808)
+//@    && (dt(e) == Float32 ==> 0 <= e.(*Float32InfoElement).value && e.(*Float32InfoElement).value < 4294967296)
+//@    && (dt(e) == Float64 ==> 0 <= e.(*Float64InfoElement).value && e.(*Float64InfoElement).value < 18446744073709551616)
+//@    && (dt(e) == DateTimeSeconds ==> 0 <= e.(*DateTimeSecondsInfoElement).value && e.(*DateTimeSecondsInfoElement).value < 4294967296)
+//@    && (dt(e) == DateTimeMilliseconds ==> 0 <= e.(*DateTimeMillisecondsInfoElement).value && e.(*DateTimeMillisecondsInfoElement).value < 18446744073709551616)
+
+//@ // payload of a field: the bytes after the variable-length prefix (fixed-width kinds have no prefix)
+//@ pure pfx(e InfoElementWithValue) int = isVar(e) ? vlPrefix(vlen(e)) : 0
+
+//@ // Round trip of one field: w holds the bytes the encoder ensures for e (clause `bytes`, w = buffer[index : index+wireLen]),
+//@ // the collector cuts the payload v = w[pfx:] (decodeDataSet: fixed width, or the announced length after the prefix) and the
+//@ // decoder ensures decodedFrom(r, v) for an element r of the same data type: then r carries e's value.
+//@ lemma roundtrip_fixed(e InfoElementWithValue, r InfoElementWithValue, w []byte, v []byte):
+//@     wfElem(e) && wfElem(r) && valRange(e) && valRange(r) && dt(e) == dt(r) && encodable(e) && !isVar(e) && dt(e) != OctetArray
+//@     && (forall q in [0, wireLen(e)): w[q] == wireByte(e, q))
+//@     && len(v) == wireLen(e) && (forall q in [0, len(v)): v[q] == w[q])
+//@     && decodedFrom(r, v)
+//@     ==> sameValue(e, r)
+//@ lemma roundtrip_var(e InfoElementWithValue, r InfoElementWithValue, w []byte, v []byte):
+//@     wfElem(e) && wfElem(r) && dt(e) == dt(r) && encodable(e) && (isVar(e) || dt(e) == OctetArray)
+//@     && (forall q in [0, wireLen(e)): w[q] == wireByte(e, q))
+//@     && len(v) == wireLen(e) - pfx(e) && (forall q in [0, len(v)): v[q] == w[pfx(e) + q])
+//@     && decodedFrom(r, v)
+//@     ==> sameValue(e, r)
+//@ // the length the collector reads from a variable-length prefix (getFieldLength: first byte, or the next two when it is 255) is the value's length
+//@ lemma roundtrip_prefix(n int, b0 int, b1 int, b2 int):
+//@     0 <= n && n <= 65535 && b0 == vlByte(n, 0) && (n >= 255 ==> b1 == vlByte(n, 1) && b2 == vlByte(n, 2))
+//@     ==> (b0 < 255 ? b0 : b1 * 256 + b2) == n && (b0 < 255 <==> n < 255)
